@@ -1156,6 +1156,34 @@ def class_table_resolver(world, cls, modname):
                                     ast.Name(e.value.id, ast.Load()), k.id,
                                     ast.Load()), k)
                     ast.fix_missing_locations(t)
+                if isinstance(t, ast.Dict) and any(
+                        isinstance(v, ast.Name) and v.id in r[0].methods
+                        for v in t.values):
+                    # values written with the bare names of methods defined
+                    # in the class body (`_MODE: _handle_x`) are called as
+                    # `h(self, data)`: the function that calls the method
+                    if t is r[2]:
+                        t = acopy(t)
+                    for i, v in enumerate(t.values):
+                        if isinstance(v, ast.Name) and v.id in r[0].methods:
+                            m = r[0].methods[v.id][1]
+                            a_ = m.args
+                            if a_.vararg or a_.kwarg or a_.kwonlyargs or \
+                                    a_.defaults or a_.posonlyargs or \
+                                    not a_.args:
+                                continue
+                            ps_ = [x.arg for x in a_.args]
+                            t.values[i] = ast.copy_location(ast.Lambda(
+                                ast.arguments(
+                                    posonlyargs=[], args=[
+                                        ast.arg(x) for x in ps_],
+                                    kwonlyargs=[], kw_defaults=[],
+                                    defaults=[]),
+                                ast.Call(ast.Attribute(
+                                    ast.Name(ps_[0], ast.Load()), v.id,
+                                    ast.Load()), [ast.Name(x, ast.Load())
+                                                  for x in ps_[1:]], [])), v)
+                    ast.fix_missing_locations(t)
                 return t
         if isinstance(e, ast.Name):
             b = world.lookup(modname, e.id)
